@@ -44,7 +44,7 @@ Theorem only_inverse_worker_computes : forall r l,
 Proof. exact only_inverse_worker_computes_l. Qed.
 
 Example hybrid_4_2 :
-  let c := {| pW := 4; pk := 2; pmeth := EigenPrediv; psym := true; pfsz := 4; pisz := 4 |} in
+  let c := {| pW := 4; pk := 2; pmeth := EigenPrediv; psym := true; pfsz := 4; pisz := 4; pfdt := 3; pidt := 3; pgdt := 3 |} in
   let l := {| na := 3; ng := 2; wa := 1; wg := 1 |} in
   map (fun r => (is_gw c r l, sod_a c r l, sod_g c r l)) [0; 1; 2; 3]
     = [(false, 0, 0); (true, 9, 10); (false, 0, 0); (true, 12, 10)] /\
